@@ -129,7 +129,7 @@ def rand_tri(rng, nvars=None, nsteps=None):
 
     def nm():
         if long_names and rng.random() < 0.7:
-            return fresh(rng, used, PREFIX[:rng.choice([31, 32, 33, 40, 56])] + rng.choice(["valid_in", "valid_out", "valid", "x", "data"]))
+            return fresh(rng, used, PREFIX[:rng.choice([31, 32, 33, 40, 56, 62, 63, 64, 95, 96, 127, 128])] + rng.choice(["valid_in", "valid_out", "valid", "x", "data"]))
         return fresh(rng, used)
     for _ in range(nvars):
         r = rng.random()
@@ -345,7 +345,7 @@ def fst_ts(exponent):
 ENUMS = [("state_t", ["idle", "run", "done"]), ("boolean", ["false", "true"]), ("logic4", ["'0'", "'1'", "'X'", "'Z'"]),
          ("mvl", ["'U'", "'X'", "'0'", "'1'", "'Z'", "'W'", "'L'", "'H'", "'-'", "'?'"]), ("tri", ["'0'", "'1'", "'Z'"]),
          ("big_t", ["l%d" % i for i in range(17)]), ("one_t", ["only", "two"]), ("char2", ["a", "b"])]
-PREFIX = "a_very_long_common_prefix_shared_by_several_identifiers_"
+PREFIX = "a_very_long_common_prefix_shared_by_several_identifiers_" + "of_a_design_with_deeply_nested_generate_blocks_and_ports_" + "x" * 30
 
 
 def rand_ghw(rng):
@@ -357,7 +357,7 @@ def rand_ghw(rng):
         r = rng.random()
         base = None
         if long_names and rng.random() < 0.7:
-            base = PREFIX[:rng.choice([31, 32, 33, 40, 56])] + rng.choice(["valid_in", "valid_out", "valid", "x", "data"])
+            base = PREFIX[:rng.choice([31, 32, 33, 40, 56, 62, 63, 64, 95, 96, 127, 128])] + rng.choice(["valid_in", "valid_out", "valid", "x", "data"])
         name = fresh(rng, used, base)
         extra = {"dir": rng.choice(["signal", "signal", "in", "out", "inout", "buffer", "linkage"])}
         if r < 0.35:
@@ -408,7 +408,8 @@ def rand_ghw(rng):
             k += 1
         elif r < 0.2 and not (v.kind in ("logic", "bit") and v.rng is None):
             n = rng.randrange(1, 5)
-            lo = rng.choice([0, 0, 1, 5])
+            by_enum = rng.random() < 0.25      # indexed by an enumeration: positions 0..129, labelled by position
+            lo = rng.choice([0, 1, 60, 63, 64, 65, 120, 126]) if by_enum else rng.choice([0, 0, 1, 5])
             left, right = rng.choice([(lo + n - 1, lo), (lo, lo + n - 1)])
             step = -1 if left > right else 1
             elems = []
@@ -417,8 +418,8 @@ def rand_ghw(rng):
                 e.name = "[%d]" % idx
                 elems.append(e)
             units.append(fg.Scope(v.name, elems, kind="ghw_array", dir=v.extra.get("dir", "signal"),
-                                  composite=["array", left, right, rng.choice(["int_array", "mem_t", "arr_t"]) + "_" + v.kind,
-                                             rng.choice([None, "sub_" + v.name])]))
+                                  composite=["array", left, right, rng.choice(["int_array", "mem_t", "arr_t"]) + "_" + v.kind + ("_e" if by_enum else ""),
+                                             rng.choice([None, "sub_" + v.name]), by_enum]))
             k += 1
         elif r < 0.32 and k + 1 < len(vs) and not any(x.extra.get("plain") or "slice_par" in x.extra for x in vs[k:k + 3]):
             n = min(rng.randrange(2, 4), len(vs) - k)
@@ -675,7 +676,13 @@ def ghw_corrupt_headers(rng, paths, d, per_file):
         hie = data.find(b"HIE\0")
         if eoh < 0 or hie < 0:
             continue
-        keep = set(range(hie + 16, hie + 20))
+        # the count fields of the section headers are left alone: a huge count is an allocation matter (Vec::with_capacity
+        # aborts the process under the address-space ceiling, the model reads on until the input ends)
+        keep = set(range(hie + 8, hie + 20))
+        for mark in (b"STR\0", b"TYP\0"):
+            at = data.find(mark)
+            if at >= 0:
+                keep |= set(range(at + 8, at + 16))
         for k in range(per_file):
             q = os.path.join(d, "%s.bad%d" % (os.path.basename(p), k))
             if rng.random() < 0.3:
